@@ -192,7 +192,7 @@ class World:
             name, idx, val, exp = None, (), base, 1
         r.__dict__["name"] = f"<{show(val)}>"
         r.attrs.update(name=name, idx=idx, exponent=exp, base=base, base_and_exponent=(base, exp), sympy=val,
-                       assumptions=self.adict(akey), _image=T("cont", val, akey))
+                       assumptions=self.adict(akey), _image=T("cont", val, akey), **self.flags(akey))
         return r
 
     def term_rec(self, coeff, facs, akey):
@@ -205,7 +205,7 @@ class World:
         r = Rec(TERM, f"<term {show(val)}>")
         tg = akey[3]
         r.attrs.update(objects=tuple(objs), provided_target_idx=None if tg is None else tuple(self.ix(k) for k in tg),
-                       assumptions=self.adict(akey), sympy=val, _image=T("cont", val, akey))
+                       assumptions=self.adict(akey), sympy=val, _image=T("cont", val, akey), **self.flags(akey))
         return r
 
     def expr_rec(self, terms, akey):
@@ -213,8 +213,12 @@ class World:
         r = Rec(EXPR, "<expr>")
         tg = akey[3]
         r.attrs.update(terms=tuple(terms), provided_target_idx=None if tg is None else tuple(self.ix(k) for k in tg),
-                       assumptions=self.adict(akey), sympy=val, _image=T("cont", val, akey))
+                       assumptions=self.adict(akey), sympy=val, _image=T("cont", val, akey), **self.flags(akey))
         return r
+
+    @staticmethod
+    def flags(akey):
+        return {"real": akey[0], "sym_tensors": akey[1], "antisym_tensors": akey[2]}
 
     # -- unwrap a value that may contain container images
     def unwrap(self, v):
